@@ -226,7 +226,16 @@ func suiteText(tier string, seed uint64, model string) *Report {
 		x := jp.R()
 		var sp []string
 		for j := 0; j < n; j++ {
-			if r.Chance(65) {
+			if c := r.Intn(100); c < 10 {
+				x = x.W()
+				sp = append(sp, "w*")
+			} else if c < 16 {
+				x = append(x, jp.Wildcard('#'))
+				sp = append(sp, "w#")
+			} else if c < 28 {
+				x = x.D()
+				sp = append(sp, "d")
+			} else if c < 72 {
 				k := keyPieces[r.Intn(len(keyPieces))]
 				if r.Chance(30) {
 					k += keyPieces[r.Intn(len(keyPieces))]
@@ -247,6 +256,14 @@ func suiteText(tier string, seed uint64, model string) *Report {
 	for _, k := range keyPieces {
 		nps = append(nps, npath{jp.R().C(k), "c" + hx([]byte(k))}, npath{jp.R().C(k).C("z"), "c" + hx([]byte(k)) + " c7a"}, npath{jp.R().N(3).C(k).N(0), "i3 c" + hx([]byte(k)) + " i0"})
 	}
+	// descents and wildcards next to every kind of fragment
+	for _, k := range []string{"a", "a b", "", "*", "é"} {
+		kh := "c" + hx([]byte(k))
+		nps = append(nps, npath{jp.R().D().C(k), "d " + kh}, npath{jp.R().C(k).D(), kh + " d"}, npath{jp.R().D().C(k).D().D().C(k), "d " + kh + " d d " + kh},
+			npath{jp.R().W().C(k).W(), "w* " + kh + " w*"}, npath{append(jp.R().C(k), jp.Wildcard('#')).C(k), kh + " w# " + kh})
+	}
+	nps = append(nps, npath{jp.R().D(), "d"}, npath{jp.R().D().D(), "d d"}, npath{jp.R().D().W(), "d w*"}, npath{append(jp.R().D(), jp.Wildcard('#')), "d w#"},
+		npath{jp.R().D().N(2), "d i2"}, npath{jp.R().W().D().N(-1).D(), "w* d i-1 d"}, npath{jp.R().W().W(), "w* w*"})
 	for _, i := range idxs {
 		nps = append(nps, npath{jp.R().N(i), fmt.Sprintf("i%d", i)}, npath{jp.R().C("a").N(i).C("b"), fmt.Sprintf("c61 i%d c62", i)})
 	}
@@ -279,7 +296,7 @@ func suiteText(tier string, seed uint64, model string) *Report {
 		ptexts[strings.ReplaceAll(strings.ReplaceAll(t, "[", "[ "), "]", " ]")] = true
 		ptexts[strings.ReplaceAll(t, "['", "[\"")] = true
 	}
-	for _, t := range []string{"$", "$.a", "$[007]", "$[-0]", "$[ 1 ]", "$['a' ]", "$[\"a\"]", "$.a.b[1]", "$.a..b", "$.*", "$[*]", "$.a[", "$[1", "$['a'", "$.", "$[]", "$[-]", "$[1 2]", "$.a b", "$x", "a.b", "@.a", "$[1,2]", "$[1:2]", "$['a','b']", "$[+1]", "$.a['b'].c"} {
+	for _, t := range []string{"$", "$.a", "$[007]", "$[-0]", "$[ 1 ]", "$['a' ]", "$[\"a\"]", "$.a.b[1]", "$.a..b", "$.*", "$[*]", "$*", "$..*", "$..", "$...a", "$....a", "$..[*]", "$[ * ]", "$.a*", "$..['a']", "$..a.b..c", "$.a[", "$[1", "$['a'", "$.", "$[]", "$[-]", "$[1 2]", "$.a b", "$x", "a.b", "@.a", "$[1,2]", "$[1:2]", "$['a','b']", "$[+1]", "$.a['b'].c"} {
 		ptexts[t] = true
 	}
 	var ptl []string
@@ -321,6 +338,10 @@ func suiteText(tier string, seed uint64, model string) *Report {
 					sp = append(sp, "c"+hx([]byte(string(tf))))
 				case jp.Nth:
 					sp = append(sp, fmt.Sprintf("i%d", int(tf)))
+				case jp.Wildcard:
+					sp = append(sp, "w"+string([]byte{byte(tf)}))
+				case jp.Descent:
+					sp = append(sp, "d")
 				default:
 					sp = append(sp, fmt.Sprintf("?%T", f))
 				}
